@@ -589,13 +589,15 @@ pub fn exec_case(case: &Case, opt: &ExecOpt) -> Outcome {
                             out.violation = Some(viol(case, "wrong-error-kind", "init", -1, "UnsupportedInterface for a window that does not fit".into()));
                         }
                         if orc.init_state {
-                            // refused before any model command: nothing but the reset on the bus
+                            // refused before any model command: nothing but (at most) the software
+                            // reset on the bus - the statement does not say whether the refusal
+                            // comes before or after the reset
                             let cmds: Vec<u8> = c
                                 .events
                                 .iter()
                                 .filter_map(|e| if let CtrlEv::Cmd { op, .. } = e { Some(*op) } else { None })
                                 .collect();
-                            let ok = if cfg.rst { cmds.is_empty() } else { cmds == [0x01] };
+                            let ok = cmds.is_empty() || (!cfg.rst && cmds == [0x01]);
                             if !ok {
                                 out.violation = Some(viol(case, "commands-before-refusal", "init", -1, format!("commands seen before UnsupportedInterface: {:02x?}", cmds)));
                             } else if kind_supported {
@@ -737,6 +739,8 @@ pub fn exec_case(case: &Case, opt: &ExecOpt) -> Outcome {
     // ---------------------------------------------------------------- program
     let mut measured_cap: Option<u64> = None;
     let mut outstanding_failure = false;
+    // an earlier failed attempt of the current call delivered its command to the controller
+    let mut reached_earlier = false;
     let mut i = 0usize;
     let mut retried = false;
     let mut skipped_failed_call = false;
@@ -884,6 +888,7 @@ pub fn exec_case(case: &Case, opt: &ExecOpt) -> Outcome {
                     retried = false;
                 }
                 outstanding_failure = false;
+                reached_earlier = false;
             }
             Err(e) => {
                 if !fault_in_call {
@@ -952,7 +957,7 @@ pub fn exec_case(case: &Case, opt: &ExecOpt) -> Outcome {
                         (Op::Tearing { .. }, CtrlEv::Cmd { op: 0x34 | 0x35, .. }) => true,
                         _ => false,
                     });
-                    if matches!(op, Op::SetOrientation { .. }) && (orc.orient || orc.fault_contract) && dut.orientation() != rm.orient && !reached {
+                    if matches!(op, Op::SetOrientation { .. }) && (orc.orient || orc.fault_contract) && dut.orientation() != rm.orient && !reached && !reached_earlier {
                         out.violation = Some(viol(
                             case,
                             "orientation-after-failed-call",
@@ -963,12 +968,14 @@ pub fn exec_case(case: &Case, opt: &ExecOpt) -> Outcome {
                         break;
                     }
                     // (an earlier attempt of this same call may have got through before failing)
+                    reached_earlier |= reached;
                     let reached = reached || outstanding_failure;
                     if !reached && case.seed & 1 == 1 {
                         // this client does not retry: the failed call changed nothing at the
                         // controller, so the display must carry on exactly as before it
                         skipped_failed_call = true;
                         stats.probes[probe("failed_call_not_retried")] += 1;
+                        reached_earlier = false;
                         i += 1;
                         continue;
                     }
